@@ -502,3 +502,10 @@ def run_symm(c, out):
     v = ncc(ref_rotate_z(r, 360.0 / n), r)
     out.check(v > 0.999, "symm:not_invariant_under_360_over_n", f"NCC {v:.6f}")
     out.check(np.array_equal(vol, keep), "symm:input_modified", "")
+
+
+# rejected calls that run before every case (vlib/faults.py): nothing they leave behind - module state, library options,
+# stray files - may make the valid calls of the case violate the statement
+from vlib import faults as _faults  # noqa: E402
+
+fault_calls = _faults.for_property(ID)
